@@ -437,4 +437,11 @@ SEGMENTS = {
         ],
         file="src/dev/cache.rs",
     ),
+    # ---- single L2 lookup (write path, discard, get_mapping)
+    "GS": dict(
+        file="src/dev/read.rs", fn="get_l2_entry", start="FULL",
+        sig="pub(crate) fn seg_gs(&self, virtual_offset: u64) -> Qcow2Result<L2Entry>",
+        await_calls=["get_l1_entry", "get_l2_slice_slow"],
+        rewrites=[(r"\.read\(\)\.await", ".kread()", 2)],
+    ),
 }
